@@ -34,6 +34,51 @@ EXPLANATION = (
 )
 
 
+def _moveaxis_placement(ctx, ck, move, fn) -> None:
+    import itertools
+
+    from ..axinterp import AxArr, Interp, Raised, Undecided, moveaxis
+
+    world, table = ctx.world, ctx.table
+    sizes = (3, 5, 7, 11)
+    wrong: list[str] = []
+    undecided: list[str] = []
+    n = 0
+    for m in (1, 2, 3, 4):
+        leaf = AxArr(tuple((frozenset({f'x{j}'}), sizes[j]) for j in range(m)))
+        raw = list(range(-m, m))
+        for k in range(1, min(m, 3 if m < 4 else 2) + 1):
+            tuples = [t for t in itertools.permutations(raw, k) if len({a % m for a in t}) == k]
+            for src in tuples:
+                for dst in tuples:
+                    forms = [(src, dst)] + ([(src[0], dst[0]), (list(src), list(dst))] if k == 1 else [])
+                    for s_, d_ in forms:
+                        n += 1
+                        want = moveaxis(leaf, s_, d_)
+                        it = Interp(world, table, budget=20_000)
+                        try:
+                            op = it.construct(move, s_, d_, in_structure=leaf)
+                            got = it.call_method(op, 'mv', leaf)
+                        except Raised as exc:
+                            wrong.append(f'source={s_!r}, destination={d_!r} on a leaf of rank {m}: raises {exc.name}')
+                            continue
+                        except Undecided as exc:
+                            undecided.append(f'source={s_!r}, destination={d_!r}: {exc}')
+                            continue
+                        if not isinstance(got, AxArr):
+                            undecided.append(f'source={s_!r}, destination={d_!r}: the result is not an array the interpreter can follow ({it.degraded[:1]})')
+                        elif got.axes != want.axes:
+                            wrong.append(f'source={s_!r}, destination={d_!r} on a leaf of rank {m}: axes end up as {got!r}, numpy.moveaxis gives {want!r}')
+            if len(undecided) > 3:
+                break
+    target = fn or move.node
+    if undecided:
+        ck.incomplete('A1', target, f'MoveAxisOperator.mv could not be followed for {len(undecided)} of {n} (source, destination) requests, e.g. {undecided[0]}', instance='moveaxis argument order')
+    else:
+        ck.expect('A1', not wrong, target, f'for all {n} order types of (source, destination) on leaves of rank 1-4 the axes end up where numpy.moveaxis puts them',
+                  f'MoveAxisOperator does not move the axes like numpy.moveaxis for {len(wrong)} of {n} requests, e.g. {wrong[0] if wrong else ""}', instance='moveaxis argument order')
+
+
 def run(ctx, ck) -> None:
     world, table = ctx.world, ctx.table
     kinds = all_mv(ctx)
@@ -56,7 +101,12 @@ def run(ctx, ck) -> None:
         if t[0] == 'call' and t[1] == ('attr', ('attr', ('var', 'jax'), 'tree'), 'map') and len(t[2]) == 2 and t[2][1] == x and t[2][0][0] == 'lambda':
             p = ('var', t[2][0][1][0])
             ok = t[2][0][2] == ('call', ('attr', ('var', 'jnp'), 'moveaxis'), (p, ('attr', S, 'source'), ('attr', S, 'destination')), ())
-    ck.expect('A1', ok, fn or move.node, 'every leaf goes through jnp.moveaxis(leaf, source, destination) in that argument order', f'MoveAxisOperator.mv is {show(t)}', instance='moveaxis argument order')
+    if ok:
+        ck.ok('A1', fn or move.node, 'every leaf goes through jnp.moveaxis(leaf, source, destination) in that argument order', instance='moveaxis argument order')
+    else:
+        # written another way: decided by following the axes of a leaf through the constructor and mv, for every order type of
+        # (source, destination) on leaves of rank 1..4 (axis-provenance interpretation, sa/axinterp.py)
+        _moveaxis_placement(ctx, ck, move, fn)
     fn = reshape.own.get('mv')
     t = _ret(fn) if isinstance(fn, ast.FunctionDef) else None
     ok = False
@@ -188,9 +238,39 @@ def run(ctx, ck) -> None:
         if in_loop and any(f[0] == 'lt' and 'ndim' in show(f[1]) and 'ndim' in show(f[2]) for f in fs):
             per_leaf = True
     ck.expect('A2', per_leaf, init, 'with axes of mixed sign the order is checked on every leaf (it depends on the rank of the leaf)', 'mixed-sign ravel axes are no longer validated against every leaf', instance='ravel mixed-sign per leaf')
+
+    # ... and for every pair of axes of opposite "signs" (one negative, the other >= 0, zero included) that per-leaf check is
+    # reached: the conditions on (first, last) alone that guard it hold (enumerated over the order types of first, last, 0)
+    def reaches_leaf_check(fv: int, lv: int) -> bool:
+        for p in function_paths(init):
+            if p.exit != 'raise' or exception_name(p.node) != 'ValueError':
+                continue
+            if not any(ev[0] == 'iter' and ev[2] and term(ev[1].iter) == leaves_t for ev in p.events):
+                continue
+            e = path_env(p)
+            ok_path = True
+            leafy = False
+            for ex, pol in p.conds():
+                try:
+                    if bool(eval_term(term(ex, e), {F: fv, La: lv})) != pol:
+                        ok_path = False
+                        break
+                except NotEvaluable:
+                    leafy = True  # the comparison that involves the rank of the leaf
+            if ok_path and leafy:
+                return True
+        return False
+
+    if per_leaf:
+        mixed = [(a, b) for a, b in grid if (a < 0) != (b < 0)]
+        skipped = [(a, b) for a, b in mixed if not reaches_leaf_check(a, b)]
+        ck.expect('A2', not skipped, init, f'all {len(mixed)} pairs with one negative and one non-negative axis (zero included) reach the per-leaf check',
+                  f'first_axis={skipped[0][0] if skipped else ""}, last_axis={skipped[0][1] if skipped else ""} (one negative axis, one non-negative) never reaches the per-leaf order check: '
+                  'for a leaf whose rank puts the first axis after the last one the operator is built and only fails when applied', instance='ravel mixed-sign coverage')
     stores = [i for i, st in enumerate(init.body) if 'self.' in ast.unparse(st).split('=')[0] and isinstance(st, ast.Assign) or 'super().__init__' in ast.unparse(st)]
     raises = [i for i, st in enumerate(init.body) if any(isinstance(n, ast.Raise) for n in ast.walk(st))]
-    ck.expect('A2', bool(raises) and (not stores or max(raises) < min(stores)), init, 'all refusals precede the first store', 'a field is stored before the arguments are validated', instance='ravel guards first', nontrivial=False)
+    # (whether the fields are stored before or after the refusals does not matter: a constructor that raises yields no object)
+    ck.expect('A2', bool(raises), init, 'the refusals are raised by the constructor', 'the constructor no longer refuses anything', instance='ravel guards first', nontrivial=False)
 
     rinit = reshape.own.get('__init__')
     chk = reshape.own.get('_check_shape')
